@@ -110,7 +110,7 @@ theorem callWith_normal
           (replyPacket vs.zeroCode env (proxyRequest env cfg f.name f.sig false args opts) f.sig
             (implOut env f args opts)).sResultDesc with
        | some e => .returned (some e) (view0 env f.sig args opts)
-       | none => proxyFinish env f.sig args opts
+       | none => proxyFinish vs.nilMapGuard env f.sig args opts
           (replyPacket vs.zeroCode env (proxyRequest env cfg f.name f.sig false args opts) f.sig
             (implOut env f args opts))) := by
   unfold callWith
